@@ -41,6 +41,13 @@ type Solver struct {
 	stack []*Term // incremental prefix mode: path-condition terms currently asserted, one push level each
 }
 
+// primaryMs: per-query budget of the incremental primary solver; on expiry the query goes to the fallback solver
+var primaryMs = func() int {
+	n := 3000
+	fmt.Sscanf(os.Getenv("SYMGO_PRIMARY_MS"), "%d", &n)
+	return n
+}()
+
 var prefixMode = os.Getenv("SYMGO_NOPREFIX") == ""
 
 // CheckPC decides pc ∧ extra. In prefix mode the path condition is kept asserted on the solver's push/pop stack and only
@@ -118,7 +125,7 @@ func NewSolver(bin string, timeoutMs int) (*Solver, error) {
 	if os.Getenv("SYMGO_NONINCREMENTAL") != "" {
 		return newSolverMode(bin, timeoutMs, false)
 	}
-	return newSolverMode(bin, 3000, true)
+	return newSolverMode(bin, primaryMs, true)
 }
 
 func newSolverMode(bin string, timeoutMs int, incremental bool) (*Solver, error) {
@@ -325,7 +332,7 @@ func (s *Solver) readResultTimed() Result {
 	}
 	budget := s.budget
 	if budget == 0 {
-		budget = 4 * time.Second
+		budget = time.Duration(primaryMs+1000) * time.Millisecond
 	}
 	ch := make(chan Result, 1)
 	out := s.out
@@ -341,7 +348,7 @@ func (s *Solver) readResultTimed() Result {
 	case <-time.After(budget):
 		s.cmd.Process.Kill()
 		s.cmd.Wait()
-		ns, err := newSolverMode(s.bin, 3000, true)
+		ns, err := newSolverMode(s.bin, primaryMs, true)
 		if err == nil {
 			s.cmd, s.in, s.out, s.pr = ns.cmd, ns.in, ns.out, ns.pr
 		}
